@@ -81,7 +81,7 @@ def _jac(ctx, p, rng):
     polys = [PP.random_poly(rng, N, 4, 4) for _ in range(M)]
     x = _point(rng, N, p['point']); xq = [Fraction(float(v)) for v in x]
     v = np.round(rng.normal(size=N) * 1.5, 3); vq = [Fraction(float(t)) for t in v]          # directions are never integer-valued
-    style = int(rng.integers(6))
+    style = int(rng.integers(12))
     # --- init_jacobian / extract_jacobian
     try:
         X = UTPM.init_jacobian(_typed(rng, x, p['point']))
@@ -126,7 +126,7 @@ def _hess(ctx, p, rng):
     poly = PP.random_poly(rng, N, 5, 5)
     x = _point(rng, N, p['point']); xq = [Fraction(float(v)) for v in x]
     v = np.round(rng.normal(size=N) * 1.5, 3); vq = [Fraction(float(t)) for t in v]
-    style = int(rng.integers(6))
+    style = int(rng.integers(12))
     try:
         xh = _typed(rng, x, p['point'])
         if isinstance(xh, list):
@@ -178,7 +178,7 @@ def _tensor(ctx, p, rng):
         e = [0] * N; e[0] = (d + 1) // 2; e[1] = d // 2
         poly.t[tuple(e)] = poly.t.get(tuple(e), 0) + Fraction(3)
     x = _point(rng, N, p['point']); xq = [Fraction(float(v)) for v in x]
-    style = int(rng.integers(6))
+    style = int(rng.integers(12))
     J = [tuple(int(v) for v in row) for row in np.asarray(EI.generate_multi_indices(N, d))]
     try:
         xt = x.copy()
